@@ -832,6 +832,31 @@ func verifyFunc(w *World, fi *FuncInfo, sweep bool) (res *FuncResult) {
 				}
 			}
 		}
+		// `fails-only-through-calls`: the converse of propagates - no failure of the function's own making
+		if c.FailsOnlyVia {
+			errIdx := -1
+			for i, rt := range fr.resTypes {
+				if isErrorType(rt) {
+					errIdx = i
+				}
+			}
+			if errIdx >= 0 && errIdx < len(vals) {
+				var any []string
+				var ks []string
+				for k := range st.callErrs {
+					ks = append(ks, k)
+				}
+				sort.Strings(ks)
+				for _, k := range ks {
+					any = append(any, "(isErr "+st.callErrs[k]+")")
+				}
+				goal := "(not (isErr " + vals[errIdx] + "))"
+				if len(any) > 0 {
+					goal = "(=> (isErr " + vals[errIdx] + ") (or " + strings.Join(any, " ") + " false))"
+				}
+				e.emit(st, "post", "fails-only-through-calls", goal, c.FailsOnlyTags, fi.Decl.Pos(), fi.Name+" fails only if one of its calls failed")
+			}
+		}
 		postStart := len(st.pc)
 		for i, en := range c.Ensures {
 			goal := e.clause(en.X, st, names, fi.Decl.Body.Rbrace, info, clausePost)
